@@ -669,16 +669,15 @@ def core_formula(rng, d, scope, ints, cnt):
     return a
 
 
-def core_cases(run, rng, n_gen, pool, hist):
+def core_cases(run, rng, n_gen, pool, hist, known):
     """stream `core`: for constraints of the fragment (decided in Coq: wf_coreb), parse_core of the printed text
     = canonical AST of parse_isla of that text = the constraint itself; the printed text = model text"""
-    g = GRAMMARS["assgn"]
-    cands = []           # (formula, origin)
+    cands = []           # (formula, origin, grammar)
     for i in range(n_gen):
-        cands.append((core_formula(rng, rng.randint(0, 4), [Constant("start", "<start>")], [], [0]), "core-gen"))
-    cands += [(f, "pool") for f in pool]
+        cands.append((core_formula(rng, rng.randint(0, 4), [Constant("start", "<start>")], [], [0]), "core-gen", "assgn"))
+    cands += [(f, "pool", gname) for f, gname in pool]
     lits, keep, skipped_const = [], [], 0
-    for f, origin in cands:
+    for f, origin, gname in cands:
         try:
             lit = g_core(f, new_info())
             text = unparse_isla(f)
@@ -688,7 +687,7 @@ def core_cases(run, rng, n_gen, pool, hist):
             skipped_const += 1      # parse_isla cannot read a const header (AttributeError in exitConstDecl, design note defect 6)
             continue
         lits.append(lit)
-        keep.append((f, origin, lit, text))
+        keep.append((f, origin, lit, text, gname))
     h = {"candidates": len(keep), "const_header_skipped": skipped_const, "in_fragment": 0, "in_fragment_generated": 0, "in_fragment_from_parsed_sources": 0,
          "multi_line": 0, "connective_first_child_parenthesised": 0, "connective_first_child_quantifier": 0}
     hist["core_fragment"] = h
@@ -701,8 +700,23 @@ def core_cases(run, rng, n_gen, pool, hist):
         return []
     cases, meta = [], []
     for i in infrag:
-        f, origin, lit, text = keep[i]
-        o = outcome(parse_isla, text, g, SP, SE)
+        f, origin, lit, text, gname = keep[i]
+        # atoms are opaque for wf_core: a constraint whose ATOMS fall into a recorded class (string literal codec,
+        # operators the lexer grammar cannot read, re.loop arity) is outside what the fragment theorem is about
+        inf = new_info()
+        try:
+            g_formula(f, inf)
+        except Unsupported:
+            continue
+        ks = [k for k in classes(inf) if k in known]
+        if ks:
+            h["in_fragment_but_recorded_class"] = h.get("in_fragment_but_recorded_class", 0) + 1
+            continue
+        if any(v.n_type not in GRAMMARS[gname] and v.n_type != Variable.NUMERIC_NTYPE for v in L.VariablesCollector.collect(f)):
+            # AST-first constraints may quantify over a nonterminal the grammar does not have: no input of parse_isla
+            h["type_not_in_grammar"] = h.get("type_not_in_grammar", 0) + 1
+            continue
+        o = outcome(parse_isla, text, GRAMMARS[gname], SP, SE)
         back, why = "None", None
         if o[0] == "ok":
             try:
@@ -714,7 +728,7 @@ def core_cases(run, rng, n_gen, pool, hist):
         else:
             why = f"re-parse raises {o[1]}"
         cases.append(f"({lit}, {g_str(text)}, {back})")
-        meta.append({"constraint_text": text, "origin": origin, "impl_reparse": why or "equal", "grammar": "assgn"})
+        meta.append({"constraint_text": text, "origin": origin, "impl_reparse": why or "equal", "grammar": gname})
         h["in_fragment"] += 1
         h["in_fragment_generated" if origin == "core-gen" else "in_fragment_from_parsed_sources"] += 1
         h["multi_line"] += "\n" in text
@@ -723,7 +737,7 @@ def core_cases(run, rng, n_gen, pool, hist):
         run.count(("core", text), "\n" in text and ("(forall" in text or "(exists" in text or "((" in text))
         if why is not None:
             run.violation({"kind": "unparse/parse round trip fails on the implementation inside the proved fragment wf_core",
-                           "witness": {"constraint": text, "grammar": "assgn", "fails": why}})
+                           "witness": {"constraint": text, "grammar": gname, "fails": why}})
     try:
         bad, dt2 = lib.coq_mismatches("c07e", "Outcome Unparse ParseCore ParseCoreFacts ParseCoreMore",
                                       "core_case_ok", cases, shard=60)
@@ -762,7 +776,10 @@ def run(run):
                        "cut from grammar expansions incl. terminals needing escapes and optionals, numeric quantifiers, "
                        "predicates with string/int arguments, SMT prefix/infix/s-expression forms over the operators of the "
                        "lexer grammar, nasty string-literal pool) over 3 grammars, kept when parse_isla accepts; plus "
-                       "formulas built AST-first. non-trivial = at least one quantifier and one string literal")
+                       "formulas built AST-first. non-trivial = at least one quantifier and one string literal. "
+                       "stream core: constraints of the proved fragment (generated through the constructors + the accepted sources "
+                       "that the Coq checker wf_coreb admits): parse_core(text) = AST of parse_isla(text) = the constraint; "
+                       "non-trivial = multi-line text whose connective has a parenthesised or quantified first child")
     NTREES[0] = 4 if thorough else 2
     proof_ok = run.proof_stage()
     replay_known(run)
@@ -865,7 +882,7 @@ def run(run):
     # ---- string literal codec and fresh names ----
     codec_bad = codec_cases(run, rng, 500 if thorough else 160, hist)
     fresh_bad = fresh_cases(run, rng, 400 if thorough else 120)
-    core_bad = core_cases(run, rng, 1500 if thorough else 150, [m[4] for m in meta][: (3000 if thorough else 400)], hist)
+    core_bad = core_cases(run, rng, 1500 if thorough else 100, [(m[4], m[0]) for m in meta][: (3000 if thorough else 140)], hist, known)
 
     hist["ops"] = dict(sorted(hist["ops"].items(), key=lambda kv: -kv[1]))
     run.cov["histogram"] = hist
@@ -895,7 +912,8 @@ def run(run):
         run.violation({"kind": "proof obligation failed", "problems": run.proof_problems,
                        "obligation": "Props/C07.v"}, found_input=False)
     run.cov["trusted_base"] = lib.TRUSTED_BASE_COMMON + [
-        "the ANTLR parser of ISLa is not modelled: re-parsing is observed on the implementation (part ii), not proved",
+        "the ANTLR parser / ISLaEmitter are modelled only for the core fragment (ParseCore.v: parse_core, tied by the stream `core` to parse_isla on constraints that the Coq checker wf_coreb accepts); outside it re-parsing is observed on the implementation (part ii), not proved",
+        "core stream: atoms compared as printed text; their free-variable lists are ordered by first occurrence in the text on both sides (SMTFormula.free_variables_ comes from a Python set); constraints with a const header are skipped (parse_isla cannot read any const declaration)",
         "Z3 4.11.2 string codec (Z3_get_lstring, smt2 scanner, zstring escapes incl. sign extension of bytes >= 0x80) and the "
         "ANTLR STRING token are modelled in Unparse.v and tied by the literal cases of this run",
         "harness conversion of z3 expressions to the `sx` AST (same case order as smt_expr_to_str) and decode of as_string()",
